@@ -153,14 +153,18 @@ Inductive ev :=
     (* a visit_* call caused by the attribute [name]; payload = the bytes of its body;
        raw = true when the visitor is handed exactly these bytes (read_u8_vec(length)) *)
 | EFlags (deprecated synthetic : bool)             (* visit_deprecated_and_synthetic_attribute *)
-| EDeferred (slot : str)                           (* a table stored during the loop and visited after it *)
-| ECodeDeclined                                    (* visit_code() returned None *)
-| ECode (max_stack max_locals : N) (frames : bool) (es : list ev)
+| EDeferred (slot : str) (sources : list str)
+    (* a table collected over the loop and visited after it; sources = the names of the attributes
+       (oldest first) whose rows it holds *)
+| ECodeDeclined (attr : str)                       (* visit_code() returned None (attr = name of the attribute: Code) *)
+| ECode (attr : str) (max_stack max_locals : N) (frames : list str) (es : list ev)
     (* visit_code() returned a visitor: max_stack/max_locals, the events of the code attributes, the
-       instruction stream (frames = a non-empty StackMapTable/StackMap was parsed), exception table *)
-| ERc (name desc : N) (es : option (list ev))      (* visit_record_component; None = declined *)
-| EField (access name desc : N) (es : option (list ev))
-| EMethod (access name desc : N) (es : option (list ev)).
+       instruction stream (frames = the names of the parsed attributes that supply a non-empty frame
+       table; the instructions carry frames iff this list is not empty), exception table *)
+| ERc (attr : str) (k : nat) (name desc : N) (es : option (list ev))
+    (* visit_record_component for the k-th component the class visitor sees (attr = Record); None = declined *)
+| EField (k : nat) (access name desc : N) (es : option (list ev))     (* the k-th visit_field *)
+| EMethod (k : nat) (access name desc : N) (es : option (list ev)).
 
 (* what the visitor side answers *)
 Record visitor := mkVisitor {
@@ -188,7 +192,7 @@ Fixpoint dispatch (arms : list arm) (m : mask) (name : str) : option action :=
 Record lstate := mkL {
   l_events : list ev;               (* most recent first *)
   l_dep : bool; l_syn : bool;
-  l_slots : list (str * bytes);     (* filled local slots (bootstrap_methods, stack_map_frame, …) with the last body *)
+  l_slots : list (str * (str * bytes)); (* filled local slots (bootstrap_methods, stack_map_frame, …): slot, attribute name, body; most recent first *)
   l_record : bool;                  (* had_record_attribute *)
   l_rc : nat;                       (* record components seen so far *)
 }.
@@ -202,19 +206,19 @@ Definition grammar := str -> N -> bytes -> option N.
 
 (* the part of one loop that depends on the context: nested readers for Code and Record *)
 Record nested := mkNested {
-  n_code : bytes -> res (ev * bytes);                            (* after visit_code() -> Some *)
+  n_code : str -> bytes -> res (ev * bytes);                     (* after visit_code() -> Some *)
   n_code_accepts : bool;
-  n_rc : nat -> bytes -> res (ev * bytes);                       (* one read_record_component *)
+  n_rc : str -> nat -> bytes -> res (ev * bytes);                (* one read_record_component *)
 }.
 
-Fixpoint rc_loop (nest : nested) (n : nat) (s : bytes) (st : lstate) : res (lstate * bytes) :=
+Fixpoint rc_loop (nest : nested) (attr : str) (n : nat) (s : bytes) (st : lstate) : res (lstate * bytes) :=
   match n with
   | O => Ok (st, s)
   | S n' =>
-    match n_rc nest (l_rc st) s with
+    match n_rc nest attr (l_rc st) s with
     | Err => Err
     | Ok (e, s1) =>
-      rc_loop nest n' s1 (mkL (e :: l_events st) (l_dep st) (l_syn st) (l_slots st) (l_record st) (S (l_rc st)))
+      rc_loop nest attr n' s1 (mkL (e :: l_events st) (l_dep st) (l_syn st) (l_slots st) (l_record st) (S (l_rc st)))
     end
   end.
 
@@ -241,7 +245,7 @@ Definition attr_step (g : grammar) (p : pool) (ct : ctx_table) (m : mask) (nest 
           | DNow => Ok (l_emit st (EAttr name false body), s3)
           | DStore slot once =>
               if once && slot_filled st slot then Err
-              else Ok (mkL (l_events st) (l_dep st) (l_syn st) ((slot, body) :: l_slots st) (l_record st) (l_rc st), s3)
+              else Ok (mkL (l_events st) (l_dep st) (l_syn st) ((slot, (name, body)) :: l_slots st) (l_record st) (l_rc st), s3)
           end
         end
       end
@@ -252,14 +256,14 @@ Definition attr_step (g : grammar) (p : pool) (ct : ctx_table) (m : mask) (nest 
       end
   | Some (ACode skip_on_decline) =>
       if n_code_accepts nest then
-        match n_code nest s2 with Err => Err | Ok (e, s3) => Ok (l_emit st e, s3) end
+        match n_code nest name s2 with Err => Err | Ok (e, s3) => Ok (l_emit st e, s3) end
       else if skip_on_decline then
-        match skipN s2 len with Err => Err | Ok s3 => Ok (l_emit st ECodeDeclined, s3) end
-      else Ok (l_emit st ECodeDeclined, s2)                       (* nothing is skipped *)
+        match skipN s2 len with Err => Err | Ok s3 => Ok (l_emit st (ECodeDeclined name), s3) end
+      else Ok (l_emit st (ECodeDeclined name), s2)                (* nothing is skipped *)
   | Some (ARecord once) =>
       if once && l_record st then Err else
       match rd16 s2 with Err => Err | Ok (count, s3) =>
-        rc_loop nest (N.to_nat count) s3
+        rc_loop nest name (N.to_nat count) s3
           (mkL (l_events st) (l_dep st) (l_syn st) (l_slots st) true (l_rc st))
       end
   end end end end.
@@ -277,8 +281,11 @@ Fixpoint attr_loop (g : grammar) (p : pool) (ct : ctx_table) (m : mask) (nest : 
 
 (* events of a finished loop, oldest first: loop events, then the deferred slots that were filled,
    then the flags event *)
+(* names of the attributes stored in [slot], oldest first *)
+Definition slot_sources (st : lstate) (slot : str) : list str :=
+  map (fun p => fst (snd p)) (filter (fun p => str_eqb (fst p) slot) (rev (l_slots st))).
 Definition deferred_events (ct : ctx_table) (st : lstate) : list ev :=
-  map EDeferred (filter (slot_filled st) (t_deferred ct)).
+  flat_map (fun slot => match slot_sources st slot with [] => [] | srcs => [EDeferred slot srcs] end) (t_deferred ct).
 Definition loop_events (ct : ctx_table) (st : lstate) : list ev :=
   rev (l_events st) ++ deferred_events ct st ++ (if t_flags_event ct then [EFlags (l_dep st) (l_syn st)] else []).
 
@@ -289,15 +296,17 @@ Definition read_attributes (g : grammar) (p : pool) (ct : ctx_table) (m : mask) 
 
 (* a context without nested readers (field, code, record component): Code/Record arms cannot occur
    in their tables; if a table had one the model answers Err *)
-Definition no_nested : nested := mkNested (fun _ => Err) true (fun _ _ => Err).
+Definition no_nested : nested := mkNested (fun _ _ => Err) true (fun _ _ _ => Err).
 
-(* non-empty frame table: number_of_entries (first u16 of the body) is not 0 *)
-Definition has_frames (st : lstate) : bool :=
-  existsb (fun p => str_eqb (fst p) [115;116;97;99;107;95;109;97;112;95;102;114;97;109;101] (* stack_map_frame *)
-                    && match rd16 (snd p) with Ok (n, _) => negb (n =? 0) | Err => false end) (l_slots st).
+(* attributes that supply a non-empty frame table: number_of_entries (first u16 of the body) is not 0 *)
+Definition STACK_MAP_FRAME : str := [115;116;97;99;107;95;109;97;112;95;102;114;97;109;101]. (* stack_map_frame *)
+Definition frame_sources (st : lstate) : list str :=
+  map (fun p => fst (snd p))
+    (filter (fun p => str_eqb (fst p) STACK_MAP_FRAME
+                      && match rd16 (snd (snd p)) with Ok (n, _) => negb (n =? 0) | Err => false end) (rev (l_slots st))).
 
 (* read_code *)
-Definition read_code (g : grammar) (p : pool) (T : reader_tables) (m : mask) (s : bytes) : res (ev * bytes) :=
+Definition read_code (g : grammar) (p : pool) (T : reader_tables) (m : mask) (attr : str) (s : bytes) : res (ev * bytes) :=
   match rd16 s with Err => Err | Ok (max_stack, s1) =>
   match rd16 s1 with Err => Err | Ok (max_locals, s2) =>
   match rd32 s2 with Err => Err | Ok (code_length, s3) =>
@@ -306,20 +315,20 @@ Definition read_code (g : grammar) (p : pool) (T : reader_tables) (m : mask) (s 
   match rd16 s4 with Err => Err | Ok (nexc, s5) =>
   match skipN s5 (8 * nexc) with Err => Err | Ok s6 =>
   match read_attributes g p (rt_code T) m no_nested s6 with Err => Err | Ok (st, s7) =>
-    Ok (ECode max_stack max_locals (has_frames st) (loop_events (rt_code T) st), s7)
+    Ok (ECode attr max_stack max_locals (frame_sources st) (loop_events (rt_code T) st), s7)
   end end end end end end end.
 
 (* read_record_component *)
-Definition read_rc (g : grammar) (p : pool) (T : reader_tables) (v : visitor) (k : nat) (s : bytes) : res (ev * bytes) :=
+Definition read_rc (g : grammar) (p : pool) (T : reader_tables) (v : visitor) (attr : str) (k : nat) (s : bytes) : res (ev * bytes) :=
   match rd16 s with Err => Err | Ok (name, s1) =>
   match rd16 s1 with Err => Err | Ok (desc, s2) =>
   match v_rc v k with
   | Some m =>
       match read_attributes g p (rt_rc T) m no_nested s2 with Err => Err | Ok (st, s3) =>
-        Ok (ERc name desc (Some (loop_events (rt_rc T) st)), s3) end
+        Ok (ERc attr k name desc (Some (loop_events (rt_rc T) st)), s3) end
   | None =>
-      if rt_break_rc T then match skip_attributes s2 with Err => Err | Ok s3 => Ok (ERc name desc None, s3) end
-      else Ok (ERc name desc None, s2)
+      if rt_break_rc T then match skip_attributes s2 with Err => Err | Ok s3 => Ok (ERc attr k name desc None, s3) end
+      else Ok (ERc attr k name desc None, s2)
   end end end.
 
 (* read_field *)
@@ -330,17 +339,17 @@ Definition read_field (g : grammar) (p : pool) (T : reader_tables) (v : visitor)
   match v_field v k with
   | Some m =>
       match read_attributes g p (rt_field T) m no_nested s3 with Err => Err | Ok (st, s4) =>
-        Ok (EField access name desc (Some (loop_events (rt_field T) st)), s4) end
+        Ok (EField k access name desc (Some (loop_events (rt_field T) st)), s4) end
   | None =>
-      if rt_break_field T then match skip_attributes s3 with Err => Err | Ok s4 => Ok (EField access name desc None, s4) end
-      else Ok (EField access name desc None, s3)
+      if rt_break_field T then match skip_attributes s3 with Err => Err | Ok s4 => Ok (EField k access name desc None, s4) end
+      else Ok (EField k access name desc None, s3)
   end end end end.
 
 (* read_method *)
 Definition method_nested (g : grammar) (p : pool) (T : reader_tables) (v : visitor) (k : nat) : nested :=
-  mkNested (fun s => match v_code v k with Some cm => read_code g p T cm s | None => Err end)
+  mkNested (fun attr s => match v_code v k with Some cm => read_code g p T cm attr s | None => Err end)
            (match v_code v k with Some _ => true | None => false end)
-           (fun _ _ => Err).
+           (fun _ _ _ => Err).
 
 Definition read_method (g : grammar) (p : pool) (T : reader_tables) (v : visitor) (k : nat) (s : bytes) : res (ev * bytes) :=
   match rd16 s with Err => Err | Ok (access, s1) =>
@@ -349,10 +358,10 @@ Definition read_method (g : grammar) (p : pool) (T : reader_tables) (v : visitor
   match v_method v k with
   | Some m =>
       match read_attributes g p (rt_method T) m (method_nested g p T v k) s3 with Err => Err | Ok (st, s4) =>
-        Ok (EMethod access name desc (Some (loop_events (rt_method T) st)), s4) end
+        Ok (EMethod k access name desc (Some (loop_events (rt_method T) st)), s4) end
   | None =>
-      if rt_break_method T then match skip_attributes s3 with Err => Err | Ok s4 => Ok (EMethod access name desc None, s4) end
-      else Ok (EMethod access name desc None, s3)
+      if rt_break_method T then match skip_attributes s3 with Err => Err | Ok s4 => Ok (EMethod k access name desc None, s4) end
+      else Ok (EMethod k access name desc None, s3)
   end end end end.
 
 
@@ -380,7 +389,7 @@ Definition read_members (rd : nat -> bytes -> res (option ev * bytes)) (s : byte
   match rd16 s with Err => Err | Ok (count, s1) => members_loop_opt rd (N.to_nat count) 0 s1 end.
 
 Definition class_nested (g : grammar) (p : pool) (T : reader_tables) (v : visitor) : nested :=
-  mkNested (fun _ => Err) true (fun k s => read_rc g p T v k s).
+  mkNested (fun _ _ => Err) true (fun attr k s => read_rc g p T v attr k s).
 
 (* `read`: one class from the stream.  Result: what the visitor saw (None = the class was declined)
    and the stream after the class. *)
